@@ -624,7 +624,17 @@ where
     let f32t = name.ends_with("f32");
     // accuracy of phi/tanh degrades like u*e^|L| (see C04): the exactness clause is
     // judged only while every value in the trace stays inside the accurate range
-    let (tol, range, maxllr) = if f32t { (1e-3, 8.0, 2.5) } else { (1e-6, 20.0, 8.0) };
+    // a quarter of the forest cases uses the wide regime: channel LLRs up to 28 (f64) / 11 (f32), i.e. messages in
+    // the upper half of the rules' own working range (tanh clamps at 36 / 18); the tolerance there carries the rules'
+    // inherent error 128u*e^|L| (|L| = largest value seen in the trace)
+    let wide = !star && rng.chance(0.25);
+    let (tol, range, maxllr) = match (f32t, wide) {
+        (true, false) => (1e-3, 8.0, 2.5),
+        (false, false) => (1e-6, 20.0, 8.0),
+        (true, true) => (1e-3, 11.5, 10.5),
+        (false, true) => (1e-6, 32.0, 28.0),
+    };
+    let unit = if f32t { 6.0e-8 } else { 1.1e-16 };
     // LLRs with 0.1 <= |x| <= maxllr whose sign pattern is NOT a codeword (otherwise the decoder returns at once)
     let mut llrs: Vec<f64> = (0..m.cols).map(|_| rng.uniform(0.1, maxllr) * rng.sign()).collect();
     if f32t {
@@ -691,7 +701,7 @@ where
             }
         }
         if !(maxmag <= range) {
-            l.count(&format!("posterior_skipped_outside_accurate_range:{}", name));
+            l.count(&format!("posterior_skipped_outside_accurate_range{}:{}", if wide { "_wide" } else { "" }, name));
             continue;
         }
         // reconstruct per-iteration per-variable LLRs from the trace
@@ -740,7 +750,9 @@ where
             for v in 0..m.cols {
                 let err = (est[v] - post[v]).abs();
                 l.max(&format!("max_posterior_error:{}:{}", sched, name), err);
-                if !(err <= tol * (1.0 + post[v].abs())) {
+                let allowed = tol * (1.0 + post[v].abs()) + if wide { 128.0 * unit * maxmag.exp() } else { 0.0 };
+                l.max(if wide { "max_posterior_error_over_allowance_wide" } else { "max_posterior_error_over_allowance" }, err / allowed);
+                if !(err <= allowed) {
                     l.violation(
                         format!("{} decoder with {} does not give the exact posterior LLRs on a cycle-free matrix", sched, name),
                         m.json()
@@ -761,6 +773,9 @@ where
                 break;
             }
         }
+        if ok && wide {
+            l.count(&format!("posterior_wide_regime_judged:{}", name));
+        }
         if ok && limit >= 2 {
             let mut d = Dig::new();
             d.s(name).s(sched).entries(&m.e).fs(&llrs);
@@ -771,7 +786,7 @@ where
 }
 
 pub fn run(run: &mut Run) {
-    run.rule = "through the public generic flooding::Decoder<A> / horizontal_layered::Decoder<A>: (1) exact integer min-sum arithmetic (checker-supplied) vs dense-table textbook schedules, results must be equal, small-integer LLRs, limits {0,1,2,3,7,12} (bounded so that the exact i64 arithmetic cannot overflow) and usize::MAX, usize::MAX-1 on inputs the textbook schedule decodes; (2) Trace<A> wrapper around all 24 built-in arithmetics and IntMinSum logs every trait call; the checker requires the inputs of every call to be exactly the previously logged outputs routed as the textbook says (bit for bit), the check pass before the variable pass, layered rows in index order starting from the previous iteration's messages, a syndrome test after every full iteration and the returned verdict/word/iteration = first iteration whose logged hard decisions satisfy H; (3) forests with check degree >= 2, n <= 14, and single-parity-check stars of odd degree 33..79 (closed-form posterior): per-variable LLRs at every iteration >= diameter vs brute-force posteriors (Phi/Tanh f64: relative 1e-6 while all trace values <= 20; f32: 1e-3 while all trace values <= 8; cases outside the accurate range are counted and skipped); matrices inserted in sorted or shuffled order; non-trivial = >= 2 iterations executed; distinct by (schedule, arithmetic, matrix, LLR, limit) digest".into();
+    run.rule = "through the public generic flooding::Decoder<A> / horizontal_layered::Decoder<A>: (1) exact integer min-sum arithmetic (checker-supplied) vs dense-table textbook schedules, results must be equal, small-integer LLRs, limits {0,1,2,3,7,12} (bounded so that the exact i64 arithmetic cannot overflow) and usize::MAX, usize::MAX-1 on inputs the textbook schedule decodes; (2) Trace<A> wrapper around all 24 built-in arithmetics and IntMinSum logs every trait call; the checker requires the inputs of every call to be exactly the previously logged outputs routed as the textbook says (bit for bit), the check pass before the variable pass, layered rows in index order starting from the previous iteration's messages, a syndrome test after every full iteration and the returned verdict/word/iteration = first iteration whose logged hard decisions satisfy H; (3) forests with check degree >= 2, n <= 14, and single-parity-check stars of odd degree 33..79 (closed-form posterior): per-variable LLRs at every iteration >= diameter vs brute-force posteriors (Phi/Tanh f64: relative 1e-6 while all trace values <= 20; f32: 1e-3 while all trace values <= 8; a quarter of the cases in the wide regime, trace values up to 32 / 11.5 with the additional allowance 128u*e^|L|; cases outside the range are counted and skipped); matrices inserted in sorted or shuffled order; non-trivial = >= 2 iterations executed; distinct by (schedule, arithmetic, matrix, LLR, limit) digest".into();
     run.assumptions = vec![
         "message order inside a slice is not constrained (sets keyed by source/dest)".into(),
         "posterior clause uses 0.1 <= |LLR| <= 8 (f64) / 2.5 (f32) and is judged only while every message stays inside the accurate range of phi/tanh (error grows like u*e^|L|, see C04)".into(),
